@@ -59,9 +59,60 @@ def build(rng, opts):
     return c
 
 
+def clones_worker(cfg):
+    """stages cloned from one template with a FreeTime horizon: every clone owns its guess — a new guess for ONE clone (given
+    through set_initial(stage.T / stage.t0, v)) leaves the others, the template and later clones at the declared guess"""
+    from ..common import setup_rockit_path
+    rockit = setup_rockit_path()
+    import io, contextlib
+    import casadi as ca
+    out = {}
+    try:
+        with contextlib.redirect_stdout(io.StringIO()), contextlib.redirect_stderr(io.StringIO()):
+            ocp = rockit.Ocp()
+            tpl = rockit.Stage(t0=rockit.FreeTime(0.25), T=rockit.FreeTime(1.5))
+            x = tpl.state(); u = tpl.control()
+            tpl.set_der(x, u)
+            tpl.add_objective(tpl.integral(u ** 2) + tpl.T)
+            tpl.subject_to(tpl.at_t0(x) == 0); tpl.subject_to(tpl.at_tf(x) == 1)
+            Meth = {"MS": lambda: rockit.MultipleShooting(N=2, intg="rk"), "DC": lambda: rockit.DirectCollocation(N=2, degree=2)}[cfg["method"]]
+            tpl.method(Meth())
+            sts = [ocp.stage(tpl) for _ in range(3)]
+            k = cfg["edited"]
+            if cfg["when"] == "after_transcription":
+                ocp.solver("ipopt", {"ipopt.print_level": 0, "print_time": False, "ipopt.max_iter": 0})
+                sts[0].sample(sts[0].t, grid="control")
+            sts[k].set_initial(sts[k].T, 4.0)
+            sts[k].set_initial(sts[k].t0, 3.0)
+            sts.append(ocp.stage(tpl))          # a clone made after the edit
+            ocp.solver("ipopt", {"ipopt.print_level": 0, "print_time": False, "ipopt.max_iter": 0})
+            try:
+                sol = ocp.solve_limited()
+            except Exception:
+                sol = ocp.non_converged_solution
+            out["starts"] = [[float(sol(st).value(st.t0)), float(sol(st).value(st.T))] for st in sts]
+            out["expected"] = [[3.0, 4.0] if i == k else [0.25, 1.5] for i in range(len(sts))]
+    except Exception as e_:
+        out["error"] = "%s: %s" % (type(e_).__name__, str(e_)[:300])
+    return out
+
+
 class C11Prop(NlpProp):
     def run(self, tier="quick", seed=0, jobs=16):
         res = NlpProp.run(self, tier, seed, jobs)
+        import multiprocessing as mp_
+        ccf = [{"method": m, "edited": k, "when": w} for m in ("MS", "DC") for k in (0, 2) for w in ("before_transcription", "after_transcription")]
+        with mp_.get_context("fork").Pool(min(jobs, len(ccf))) as pool:
+            rc = pool.map(clones_worker, ccf, chunksize=1)
+        for cfg, r in zip(ccf, rc):
+            res["distribution"]["clones-free-horizon"] = res["distribution"].get("clones-free-horizon", 0) + 1
+            bad = "error" in r or any(abs(a - b) > 1e-9 for s_, e_ in zip(r.get("starts", []), r.get("expected", [])) for a, b in zip(s_, e_))
+            if bad:
+                res["disagreements"].append({"property": "C11", "finding_key": None, "case": dict(cfg, _clones=True), "points": [],
+                                             "what": [{"what": "clones of a template with a FreeTime horizon: the starting values (t0, T) of the stages are not their own guesses "
+                                                               "(a new guess for one clone leaked to another stage, or got lost)",
+                                                       "start (t0, T) per stage": r.get("starts"), "expected": r.get("expected"), "error": r.get("error")}]})
+        res["evaluations"] += len(ccf)
         # metamorphic oracle on rockit alone: free horizon restricted to the point's value vs the fixed OCP
         n = 60 if tier == "quick" else 600
         cps = self.gen_cases(seed + 23, n, self.opts_q if tier == "quick" else self.opts_t, 3)
@@ -104,4 +155,13 @@ P = C11Prop("C11", OPTS, OPTS_T, build=build, judge_kinds=None, judge_obj=True, 
                  "(2) metamorphic on rockit: the free problem at T=c, t0=c0 against the same OCP declared with those "
                  "numbers (fixed rows must all occur, leftovers must be T>=0 and constant grid rows, same objective).  "
                  "non-trivial = has a free horizon; distinct by hash of the case")
-run, replay = P.run, P.replay
+run = P.run
+
+
+def replay(path):
+    import json
+    d = json.load(open(path))
+    if d.get("case", {}).get("_clones"):
+        print(json.dumps(clones_worker(d["case"]), indent=1))
+        return 0
+    return P.replay(path)
